@@ -19,6 +19,106 @@ def _mentions(node, dotted_name):
     return any(dotted(n) == dotted_name for n in ast.walk(node) if isinstance(n, (ast.Attribute, ast.Name)))
 
 
+NUMERIC_TYPES = {"int", "float", "complex", "bool", "numbers.Number", "numbers.Real", "numbers.Complex", "numbers.Integral", "numpy.floating",
+                 "numpy.integer", "numpy.number", "numpy.complexfloating", "numpy.generic", "integer_types", "float_types", "complex_types",
+                 "boolean_types", "scalar_types", "number_types"}
+INTEGER_ONLY = {"int", "integer_types", "numbers.Integral", "numpy.integer"}
+NON_NUMERIC = {"str", "bytes", "Expr", "Type", "type", "tuple", "list", "dict"}
+
+
+def _isinstance_guards(test):
+    """{name: set of type names} for `isinstance(name, T)` conjuncts of a test"""
+    out = {}
+    if isinstance(test, ast.BoolOp) and isinstance(test.op, ast.And):
+        for v in test.values:
+            out.update(_isinstance_guards(v))
+    elif isinstance(test, ast.Call) and dotted(test.func) == "isinstance" and len(test.args) == 2 and isinstance(test.args[0], ast.Name):
+        t = test.args[1]
+        ts = {dotted(e) or "?" for e in (t.elts if isinstance(t, ast.Tuple) else [t])}
+        out[test.args[0].id] = ts
+    return out
+
+
+def raw_scalar_keys(func):
+    """(number of taint sources, [(kind, node, name, why)]): uses of a raw scalar value as a mapping/set key inside `func`.
+
+    A name is a raw scalar (a) inside the body of `if isinstance(name, T)` when T contains a numeric type other than integer-only
+    types (an integer is a legitimate sequence index), (b) everywhere in a function that passes it as the value of a constant
+    construction (`Expr(ctx, "constant", (name, ...))`, `make_constant(ctx, name, ...)`), except inside `if isinstance(name, str)`.
+    A key is raw when it is the name itself or a tuple display with the name as an element, unless the key also carries
+    type(name) and an injective encoding (str/repr/...) of it."""
+    global_taint = {}
+    for n in ast.walk(func):
+        if isinstance(n, ast.Call):
+            fn = (dotted(n.func) or "").split(".")[-1]
+            if fn == "Expr" and len(n.args) >= 3 and isinstance(n.args[1], ast.Constant) and n.args[1].value == "constant" \
+                    and isinstance(n.args[2], ast.Tuple) and n.args[2].elts and isinstance(n.args[2].elts[0], ast.Name):
+                global_taint[n.args[2].elts[0].id] = "it becomes the value of a constant expression"
+            elif fn == "make_constant" and len(n.args) >= 2 and isinstance(n.args[1], ast.Name):
+                global_taint[n.args[1].id] = "it is passed to make_constant as the value"
+    nsrc = len(global_taint)
+    hits = []
+
+    def safe_key(key, name):
+        src = norm_src(key)
+        has_type = f"type({name})" in src
+        enc = any(isinstance(c, ast.Call) and ((call_name(c) or "").split(".")[-1] in INJECTIVE_ENCODERS) and name in _names(c) for c in ast.walk(key))
+        return has_type and enc
+
+    def raw_names(key, taint):
+        cand = [key] if isinstance(key, ast.Name) else (list(key.elts) if isinstance(key, ast.Tuple) else [])
+        return [c.id for c in cand if isinstance(c, ast.Name) and c.id in taint]
+
+    def scan_expr(node, taint):
+        for m in ast.walk(node):
+            key = kind = None
+            if isinstance(m, ast.Subscript):
+                key, kind = m.slice, "subscript"
+            elif isinstance(m, ast.Call) and isinstance(m.func, ast.Attribute) and m.func.attr in ("get", "setdefault", "pop", "add", "discard") and m.args:
+                key, kind = m.args[0], f".{m.func.attr}()"
+            if key is None:
+                continue
+            for nm in raw_names(key, taint):
+                if not safe_key(key, nm):
+                    hits.append((kind, m, nm, taint[nm]))
+
+    def visit(stmts, taint):
+        nonlocal nsrc
+        for st in stmts:
+            if isinstance(st, ast.If):
+                scan_expr(st.test, taint)
+                g = _isinstance_guards(st.test)
+                t2 = dict(taint)
+                for nm, ts in g.items():
+                    if ts & NUMERIC_TYPES and not ts <= INTEGER_ONLY:
+                        t2[nm] = f"isinstance({nm}, {{{', '.join(sorted(ts))}}}) holds"
+                        nsrc += 1
+                    elif ts <= NON_NUMERIC:
+                        t2.pop(nm, None)
+                visit(st.body, t2)
+                visit(st.orelse, taint)
+            elif isinstance(st, (ast.For, ast.While, ast.With, ast.Try)):
+                for fld in ("iter", "test"):
+                    if hasattr(st, fld):
+                        scan_expr(getattr(st, fld), taint)
+                for fld in ("body", "orelse", "finalbody"):
+                    visit(getattr(st, fld, []) or [], taint)
+                for h in getattr(st, "handlers", []) or []:
+                    visit(h.body, taint)
+            elif isinstance(st, (ast.FunctionDef, ast.AsyncFunctionDef, ast.ClassDef)):
+                continue
+            else:
+                scan_expr(st, taint)
+                # a rebinding of the name ends its raw-scalar status for the rest of the block
+                if isinstance(st, ast.Assign):
+                    for t in st.targets:
+                        if isinstance(t, ast.Name) and t.id in taint and t.id not in global_taint:
+                            taint = {k: v for k, v in taint.items() if k != t.id}
+
+    visit(func.body, dict(global_taint))
+    return nsrc, hits
+
+
 def run(repo, tier):
     r = Report("C07", tier, repo, level="other", design_ref="§3/C07")
     r.explanation = (
@@ -33,6 +133,7 @@ def run(repo, tier):
     r.rule("R7.2", "keys contain the kind, the value's type name, the like key and one component per operand, in order", floor=6)
     r.rule("R7.3", "Expr.__new__ exits only through registration; the expression table is written once per miss, never on a hit", floor=6)
     r.rule("R7.4", "Type singletons: __hash__ uses a subset of the fields __eq__ compares; the table is consulted before insertion", floor=2)
+    r.rule("R7.5", "no mapping or set in expr.py/context.py is keyed by a raw scalar value (a second interning table in front of registration)", floor=2)
 
     rel = "expr.py"
     cs = repo.func(rel, "Expr._compute_serialized")
@@ -318,6 +419,38 @@ def run(repo, tier):
                 if rel2 == "expr.py" and f is not None and f.name == "__new__":
                     ok = ok and n.args and isinstance(n.args[0], ast.Constant) and n.args[0].value is None
                 r.ob("R7.3", f"{rel2} caller of _set_serialized_id ({f.name if f else '<module>'})", ok, "an expression id is assigned outside registration", loc(rel2, n))
+
+    # ------------------------------------------------------------------ R7.5
+    n_src = 0
+    for rel2 in ("expr.py", "context.py"):
+        for f in ast.walk(repo.tree(rel2)):
+            if isinstance(f, (ast.FunctionDef, ast.AsyncFunctionDef)):
+                srcs, hits = raw_scalar_keys(f)
+                n_src += srcs
+                for kind, node, name, why in hits:
+                    r.ob(
+                        "R7.5", f"{rel2}::{f.name} {kind} keyed by the raw value `{name}`", False,
+                        f"`{norm_src(node)}`: `{name}` is a raw Python value here ({why}); a mapping or set identifies keys by == and hash(), "
+                        "under which 2, 2.0 and (2+0j), 1 and True, 0.0 and -0.0 are one key: the object stored for whichever was seen first "
+                        "is handed out for the others before the (value, type name, str(value)) key is ever consulted",
+                        loc(rel2, node),
+                    )
+    r.ob("R7.5", "expr.py/context.py places where a raw scalar value is known to flow (isinstance guards, constant constructions)", n_src >= 4,
+         f"only {n_src} such places recognised", loc("expr.py", repo.tree("expr.py")))
+    # the detector must recognise the pattern it exists for (expected count on the tree is zero)
+    probe = ast.parse(
+        "def normalize(context, operands):\n"
+        "    cache = ref.props.setdefault('k', {})\n"
+        "    for operand in operands:\n"
+        "        if isinstance(operand, (int, float, complex, str)):\n"
+        "            if operand not in cache:\n"
+        "                cache[operand] = make_constant(context, operand, ref)\n"
+        "            operand = cache[operand]\n"
+    ).body[0]
+    probe2 = ast.parse("def make_constant(context, value, like):\n    return context._c.setdefault((value, like.key), Expr(context, 'constant', (value, like)))\n").body[0]
+    if len(raw_scalar_keys(probe)[1]) != 2 or len(raw_scalar_keys(probe2)[1]) != 1:
+        raise AnalysisError("R7.5 detector does not recognise its positive examples")
+    r.ob("R7.5", "detector self-check (two positive examples recognised)", True, "", loc("expr.py", repo.tree("expr.py")))
 
     # ------------------------------------------------------------------ R7.4
     trel = "typesystem.py"
